@@ -62,7 +62,7 @@ def gen_cases(tier: str, seed: int) -> list[dict]:
         cases.append({"kind": "description", "fmt": fmt, "comp": rng.choice(dsmod.COMPRESSIONS[fmt]),
                       "dseed": rng.randrange(1 << 30)})
     targets = ["moved", "deep/er/nest", "ünï ✓ 日本", "with blank  s", "trailing.dot.", "-dash", "a'b\"c"]
-    spellings = ["abs", "rel", "dot-rel", "updown", "abs-updown", "rel-parent"]
+    spellings = ["abs", "rel", "dot-rel", "updown", "abs-updown", "rel-parent", "same-relative-name"]
     n_rel = 60 if tier == "quick" else 900
     for k in range(n_rel):
         fmt = rng.choice(dsmod.FORMATS)
@@ -120,10 +120,26 @@ def run_description(case: dict, work: Path) -> dict:
                                  hash_checksum_algorithms=tuple(algs))
     root = work / rng.choice(["ds", "d s", "ď"])
     dataset = Dataset.create(root, Metadata(**metadata_kwargs), structure)
+    # the writer may edit the description after creating the dataset and save it without writing shards
+    edit = rng.choice(["none", "write_config", "empty-filler", "before-fill"])
+    if edit != "none":
+        from sedpack.io import Metadata as _Metadata
+        metadata_kwargs["description"] = rng.choice(TEXTS) + " (edited)"
+        metadata_kwargs["custom_metadata"] = rand_meta(rng)
+        dataset.metadata = _Metadata(**metadata_kwargs)
+        attrs[1].custom_metadata = rand_meta(rng)
+        structure.saved_data_description = attrs
+        dataset.dataset_structure = structure
+        if edit == "write_config":
+            dataset.write_config(updated_infos=[])
+        elif edit == "empty-filler":
+            with dataset.filler():
+                pass
+        obs[f"description_edit:{edit}"] += 1
     shard_metas = [rand_meta(rng) for _ in range(3)]
     written = []
     with dataset.filler() as filler:
-        for k in range(rng.randint(0, 5)):
+        for k in range(rng.randint(0, 5) if edit != "before-fill" else rng.randint(1, 4)):
             meta = rng.choice(shard_metas)
             ident = dsmod.make_id("train", 0, 0, k)
             filler.write_example(values=dsmod.example(ident), split="train", custom_metadata=meta)
@@ -180,6 +196,8 @@ def spelled(work: Path, target: Path, spelling: str) -> tuple[str, Path]:
         return "sub/../" + os.path.relpath(target, work), work          # needs work/sub to exist
     if spelling == "abs-updown":
         return str(target.parent / "zz" / ".." / target.name), work      # needs parent/zz
+    if spelling == "same-relative-name":
+        return target.name, target.parent                  # "ds" opened from inside the new parent directory
     if spelling == "rel-parent":
         inner = work / "inner" / "cwd"
         return os.path.relpath(target, inner), inner
@@ -209,6 +227,15 @@ def run_relocate(case: dict, work: Path) -> dict:
     before = {s: dsmod.ids_of(readers.read(Dataset(original), "sync", s, shuffle=0, repeat=False))[0] for s in splits}
     before_tree = auditor.tree_digest(original)
     target = work / "dest" / case["target"]
+    if case["spelling"] == "same-relative-name":
+        # the same relative name ("ds") is used from two working directories in one process: first the
+        # original from its own parent, later the relocated copy from the new parent
+        target = work / "dest" / case["target"] / original.name
+        os.chdir(original.parent)
+        early = Dataset(original.name)
+        first_ids = {s: dsmod.ids_of(readers.read(early, "sync", s, shuffle=0, repeat=False))[0] for s in splits}
+        if first_ids != before:
+            violations.append({"key": "relative-open-differs", "msg": "original opened by its relative name"})
     target.parent.mkdir(parents=True, exist_ok=True)
     (work / "sub").mkdir()
     (work / "inner" / "cwd").mkdir(parents=True)
